@@ -51,3 +51,106 @@ Example C07_domain_nonvacuous :
   (119 <=? n_elt) && (21 <=? n_atype) && (18 <=? n_geom) && (15 <=? n_btype) && (900 <=? lenN tokens) = true
   /\ get_tok (7, 1, 6) = u8 "N.pl3" /\ set_tok (u8 "N.pl3") = Some (7, 1, 6).
 Proof. vm_compute. repeat split; reflexivity. Qed.
+
+(* ------------------------------------------------------------------ layer (b): the text codec.
+   `write` = dumps_mol2 (wq = true: Molecule, false: Structure), `read` = loads_mol2, `read_all` =
+   loads_all_mol2, `write_ens` / `read_ens` = ConformerEnsemble.dumps_mol2 / loads_mol2, as modelled in
+   Model/Mol2Text.v and compared with the implementation on every run.
+   wf_real_mol m: the name is one line and survives str.strip(), every label is blank-free (or empty), bond
+   endpoints are atoms of the molecule, atom / bond types are members of the enumerations. *)
+Lemma C07_table_acc : types_accb = true. Proof. vm_compute. reflexivity. Qed.
+Lemma C07_table_ok : types_okb = true. Proof. vm_compute. reflexivity. Qed.
+Lemma C07_table_bonds : bonds_okb = true. Proof. vm_compute. reflexivity. Qed.
+
+(* for EVERY well-formed molecule, of any size, with any coordinates and charges: reading what was written
+   succeeds and gives the normal form (empty labels filled in, types as the reader assigns them, the sign of a
+   zero charge dropped) *)
+Theorem C07_roundtrip : forall wq m, wf_real_mol m = true -> read RV wq (write RV wq m) = Some (norm RV wq m).
+Proof. exact (real_roundtrip C07_table_acc C07_table_bonds). Qed.
+Print Assumptions C07_roundtrip.
+
+Theorem C07_roundtrip_all : forall wq ms, ms <> [] -> Forall (fun m => wf_real_mol m = true) ms ->
+  read_all RV wq (write_all RV wq ms) = Some (map (norm RV wq) ms).
+Proof. exact (real_roundtrip_all C07_table_acc C07_table_bonds). Qed.
+Print Assumptions C07_roundtrip_all.
+
+(* the same in the words of the property: name, atom order, every element, every non-empty label, coordinates
+   and charges to the written precision (exactly, as decimals), the bond list with endpoints and every
+   expressible bond type *)
+Theorem C07_preserved : forall wq m m', wf_real_mol m = true -> read RV wq (write RV wq m) = Some m' ->
+  m_name m' = m_name m
+  /\ length (m_atoms m') = length (m_atoms m)
+  /\ (forall i a, nth_error (m_atoms m) i = Some a ->
+        exists a', nth_error (m_atoms m') i = Some a'
+          /\ elt_of (a_ty a') = elt_of (a_ty a)
+          /\ (a_label a <> [] -> a_label a' = a_label a)
+          /\ a_x a' = a_x a /\ a_y a' = a_y a /\ a_z a' = a_z a
+          /\ (wq = true -> fx_val (a_q a') = fx_val (a_q a)))
+  /\ length (m_bonds m') = length (m_bonds m)
+  /\ (forall k b, nth_error (m_bonds m) k = Some b ->
+        exists b', nth_error (m_bonds m') k = Some b' /\ b_a1 b' = b_a1 b /\ b_a2 b' = b_a2 b
+          /\ (forall name tk, In (name, tk) bond_spec -> bond_spec_okb = true ->
+                pos_of name btype_names 0 = Some (b_ty b) -> b_ty b' = b_ty b)).
+Proof. exact (real_preserved C07_table_acc C07_table_bonds). Qed.
+Print Assumptions C07_preserved.
+
+(* a second cycle changes nothing: the text written from what was read is the text that was read --
+   except for the recorded finding (a charge written "-0.000" comes back as "0.000") *)
+Theorem C07_text_fixed_point : forall wq m, wf_real_mol m = true ->
+  (wq = true -> forallb (fun a : atom RV => negb (neg_zero (a_q a))) (m_atoms m) = true) ->
+  write RV wq (norm RV wq m) = write RV wq m.
+Proof. exact (real_text_fixed_point C07_table_ok C07_table_bonds). Qed.
+Print Assumptions C07_text_fixed_point.
+
+Definition negzero_witness : mol RV :=
+  rmol (u8 "w") [ratom (6, 1, 0) (u8 "C1") (mk_fx false 0) (mk_fx false 0) (mk_fx false 0) (mk_fx true 0)] [].
+Lemma C07_text_fixed_point_refuted_negzero :
+  wf_real_mol negzero_witness = true /\
+  str_eqb (write RV true (norm RV true negzero_witness)) (write RV true negzero_witness) = false.
+Proof. vm_compute. split; reflexivity. Qed.
+
+(* ensembles: every conformer comes back, in order, with its own coordinates and charges *)
+Theorem C07_ensemble : forall e, wf_real_ens e = true -> read_ens RV (write_ens RV e) = Some (norm_ens RV e).
+Proof. exact (real_ensemble C07_table_acc C07_table_bonds). Qed.
+Print Assumptions C07_ensemble.
+
+Theorem C07_ensemble_count_order : forall e e', wf_real_ens e = true -> read_ens RV (write_ens RV e) = Some e' ->
+  length (e_confs e') = length (e_confs e) /\
+  forall k c, nth_error (e_confs e) k = Some c -> nth_error (e_confs e') k = Some (map canon_cpos c).
+Proof.
+  intros e e' H. apply ensemble_count_order. exact (real_good_ens C07_table_acc C07_table_bonds e H).
+Qed.
+Print Assumptions C07_ensemble_count_order.
+
+(* recorded finding: without conformers nothing is written and nothing can be read *)
+Lemma C07_ensemble_refuted_no_conformer :
+  read_ens RV (write_ens RV (rens (u8 "noconf") [((6, 1, 0), u8 "C1")] [] [])) = None.
+Proof. vm_compute. reflexivity. Qed.
+
+(* why the name must survive str.strip(): the reader strips every line *)
+Example C07_name_is_stripped :
+  let m := rmol (u8 " padded ") [] [] in
+  wf_real_mol m = false /\ option_map (fun r : mol RV => m_name r) (read RV true (write RV true m)) = Some (u8 "padded").
+Proof. vm_compute. split; reflexivity. Qed.
+
+(* the hypotheses are satisfiable by a non-trivial molecule: 3 atoms (an empty label, a label wider than its
+   column, N.pl3, a dummy atom), coordinates needing more than 12 columns, -0.000000, charges at the rounding
+   boundary, an aromatic, a dummy and a (non-expressible) quadruple bond; and by a 2-conformer ensemble *)
+Definition demo_mol : mol RV :=
+  rmol (u8 "demo mol #1")
+    [ratom (7, 1, 6) [] (mk_fx true 123456789012) (mk_fx true 0) (mk_fx false 1) (mk_fx true 1);
+     ratom (6, 2, 0) (u8 "C_aromatic_17") (mk_fx false 1500000) (mk_fx false 999999999999) (mk_fx true 500) (mk_fx false 2345);
+     ratom (0, 10, 0) (u8 "X") (mk_fx false 0) (mk_fx false 0) (mk_fx false 0) (mk_fx false 0)]
+    [rbond 0 1 9; rbond 1 2 7; rbond 2 0 4].
+Definition demo_ens : ens RV :=
+  rens (u8 "ens") [((6, 5, 0), u8 "C1"); ((1, 1, 0), [])] [rbond 0 1 1]
+    [[mk_cpos (mk_fx false 1) (mk_fx false 2) (mk_fx false 3) (mk_fx false 4); mk_cpos (mk_fx true 5) (mk_fx false 6) (mk_fx false 7) (mk_fx true 8)];
+     [mk_cpos (mk_fx false 11) (mk_fx false 12) (mk_fx false 13) (mk_fx false 14); mk_cpos (mk_fx true 15) (mk_fx false 16) (mk_fx false 17) (mk_fx true 18)]].
+Example C07_hypotheses_satisfiable :
+  wf_real_mol demo_mol = true
+  /\ forallb (fun a : atom RV => negb (neg_zero (a_q a))) (m_atoms demo_mol) = true
+  /\ (match read RV true (write RV true demo_mol) with Some r => mol_obs_eqb r (norm RV true demo_mol) | None => false end) = true
+  /\ mol_obs_eqb (norm RV true demo_mol) demo_mol = false
+  /\ wf_real_ens demo_ens = true
+  /\ option_map (fun e : ens RV => length (e_confs e)) (read_ens RV (write_ens RV demo_ens)) = Some 2%nat.
+Proof. vm_compute. repeat split; reflexivity. Qed.
